@@ -157,11 +157,11 @@ def mods():
         from sc3.base import builtins as bi, absobject as aob, functions as fn, \
             stream as stm, operand as opd, utils as utl
         from sc3.seq import pattern as ptt, event as evt
-        from sc3.seq.patterns import listpatterns as lp
+        from sc3.seq.patterns import listpatterns as lp, filterpatterns as fp
         from sc3.synth import ugen as ugn
         from sc3.base.main import main
         _m.update(bi=bi, aob=aob, fn=fn, stm=stm, opd=opd, utl=utl, ptt=ptt,
-                  evt=evt, lp=lp, ugn=ugn, main=main)
+                  evt=evt, lp=lp, fp=fp, ugn=ugn, main=main)
     return _m
 
 
@@ -170,7 +170,7 @@ FLOATS = [-6.5, -2.5, -1.0, -0.5, 0.0, 0.25, 0.5, 1.0, 1.5, 2.5, 3.75, 8.0]
 
 NUMBER_KINDS = ['int', 'float']
 FUNC_KINDS = ['func', 'cfunc']
-STREAM_KINDS = ['routine', 'cstream']
+STREAM_KINDS = ['routine', 'cstream', 'pstream', 'fstream']
 PATTERN_KINDS = ['pattern', 'cpattern']
 CHAN_KINDS = ['chan', 'nchan', 'aparam']
 PLAIN_LIST_KINDS = ['list', 'tuple', 'nested']
@@ -241,6 +241,19 @@ def make(kind, rng, x0, ints_only=False):
             return -r, ('seq', [-v for v in vals])
         c = n()
         return r + c, ('seq', [v + c for v in vals])
+    if kind == 'pstream':        # stream object made from a pattern
+        vals = [n() for _ in range(rng.randint(2, 4))]
+        return m['stm'].stream(m['lp'].Pseq(list(vals), 1)), ('seq', list(vals))
+    if kind == 'fstream':        # FunctionStream over varying values
+        vals = [n() for _ in range(rng.randint(2, 4))]
+        it = iter(vals)
+
+        def next_func():
+            try:
+                return next(it)
+            except StopIteration:
+                raise m['stm'].StopStream from None
+        return m['stm'].FunctionStream(next_func), ('seq', list(vals))
     if kind in ('pattern', 'cpattern'):
         vals = [n() for _ in range(rng.randint(1, 4))]
         p = m['lp'].Pseq(list(vals), 1)
@@ -280,6 +293,26 @@ def make(kind, rng, x0, ints_only=False):
 
 
 CALL_BY_KEYWORD = [False]   # functions take their argument as f(x=x0)
+# how a composed *pattern* is turned into values: 'stream' (stream(p), the
+# __stream__ path) or embedded in another pattern / through the embedding
+# protocol (the __embed__ path): 'pseq' Pseq([p], 1), 'pn' Pn(p, 1), 'embed'
+# the generator of stream.embed(p).  All must give the same sequence
+# (sub-patterns are embedded in place).
+EVAL_MODE = ['stream']
+EVAL_MODES = ['stream', 'pseq', 'pn', 'embed']
+
+
+class _EmbedStream:
+    """next() over the embedding generator of a pattern."""
+
+    def __init__(self, gen, StopStream):
+        self.gen, self.StopStream = gen, StopStream
+
+    def next(self, inval=None):
+        try:
+            return self.gen.send(inval)
+        except StopIteration:
+            raise self.StopStream from None
 
 
 def evaluate(obj, x0, depth=0):
@@ -297,8 +330,16 @@ def evaluate(obj, x0, depth=0):
                 return evaluate(obj(x=x0), x0, depth + 1)
             return evaluate(obj(x0), x0, depth + 1)
         if isinstance(obj, m['ptt'].Pattern):
-            obj = m['stm'].stream(obj)
-        if isinstance(obj, m['stm'].Stream):
+            mode = EVAL_MODE[0]
+            if mode == 'pseq':
+                obj = m['stm'].stream(m['lp'].Pseq([obj], 1))
+            elif mode == 'pn':
+                obj = m['stm'].stream(m['fp'].Pn(obj, 1))
+            elif mode == 'embed':
+                obj = _EmbedStream(m['stm'].embed(obj, None), m['stm'].StopStream)
+            else:
+                obj = m['stm'].stream(obj)
+        if isinstance(obj, (m['stm'].Stream, _EmbedStream)):
             out = []
             for _ in range(K):
                 try:
